@@ -107,7 +107,7 @@ class C18(Prop):
             'thorough adds all configurations with <= 2 rules x <= 3 events from a 6-event alphabet, with start/stop around or across the rules, and '
             'every pair of one-act behaviours (7 kinds) at start/stop/status of the fallback and a rule sink over 5 histories. '
             'non-trivial = at least one rule and one status event, or a round trip; distinct = distinct input S-expression')
-    assumptions = ['translator tie (harness/pystream.py): StreamResultRouter.status is symbolically executed and startTestRun/stopTestRun/add_rule/policy methods are matched statement by statement on every run; trusted: the translator and the reading of the recognised forms by TTV/Model/RouterSrc.lean (is-not-None, in-dict, and/not, str truthiness, split/slice, live-list loop)',
+    assumptions = ['translator tie (harness/pystream.py): StreamResultRouter.status is symbolically executed and startTestRun/stopTestRun/add_rule/policy methods are matched statement by statement on every run; trusted: the translator and the reading of the recognised forms by TTV/Model/RouterSrc.lean (is-not-None, in-dict, and/not, str truthiness, split/slice, live-list loop); trusted normalisations before comparing: an arm is read knowing its test, nested ifs = `and`, conjuncts that cannot raise in canonical order (a dict lookup is only admitted on a path that tested the key, else the tie breaks), == None for is None, early returns with one forwarding call per path, aliases of the rule dicts, prefixes.get(k) tested for None = `k in prefixes` (values are pairs), split("/", n>=1)[0] / partition("/")[0], tests of the parameter do_start_stop_run split / merged / turned around - the order of calls on sinks, of the append and of the _in_run assignments is asserted as written',
                    'a scripted sink behaves plainly (records only) when it is called from inside a re-entrant add_rule, i.e. the immediate startTestRun of a rule added by another sink\'s method while a run is in progress; nesting of scripted behaviour is therefore one level deep',
                    'Python list iteration over a list that grows (for sink in self._sinks) is modelled by an index loop over the live list, with a fuel bound proved sufficient',
                    'Python dict semantics of the two rule tables are modelled by association lists (re-registration overwrites)',
